@@ -33,6 +33,7 @@ type Thread struct {
 	ID    int
 	Point string   // yield point the thread is parked at ("" while running, "done" when finished)
 	Args  []uint64 // arguments of that yield point
+	Last  string   // yield point left most recently
 	Done  bool
 	Panic any // recovered panic value of the thread function, if any
 
@@ -44,9 +45,10 @@ type Thread struct {
 
 // Sched controls a set of logical threads.
 type Sched struct {
-	// Points selects which yield points park (nil: all). Points that are filtered out are
-	// passed through, i.e. they do not end a step.
-	Points func(point string) bool
+	// Filter selects which yield points park (nil: all); it sees the calling thread, whose Last
+	// field is the yield point it left most recently. Points that are filtered out are passed
+	// through, i.e. they do not end a step.
+	Filter func(t *Thread, point string) bool
 	// Enabled tells whether a thread parked at (point, args) can take a step now
 	// (nil: always). It is evaluated while every logical thread is parked.
 	Enabled func(point string, args []uint64) bool
@@ -90,7 +92,7 @@ func (s *Sched) Hook(point string, args ...uint64) {
 	if t == nil {
 		return
 	}
-	if s.Points != nil && !s.Points(point) {
+	if s.Filter != nil && !s.Filter(t, point) {
 		return
 	}
 	t.park(point, args, nil)
@@ -116,7 +118,7 @@ func (t *Thread) park(point string, args []uint64, cond func() bool) {
 	t.cond = cond
 	t.s.ev <- t
 	<-t.resume
-	t.Point, t.cond = "", nil
+	t.Last, t.Point, t.cond = point, "", nil
 	if t.abort {
 		runtime.Goexit()
 	}
